@@ -15,7 +15,8 @@ import Mathlib.Tactic.IntervalCases
      operation leaves the state unchanged.  `counts` sum to `len` (`wf_sum_counts`).
   2. `Canonical` (labels in order of first appearance): established by `Crp::draw` for every variate stream and
      every carrier (`crpDraw_canonical`), preserved by `append`; NOT preserved by `remove`
-     (`remove_canonical_counterexample`), which only preserves the relative order of labels (`remove_relabel`).
+     (`remove_canonical_counterexample`), which only preserves the relative order of labels (`remove_relabel`);
+     removing the LAST item does preserve it (`remove_last_canonical`).
   3. `Crp::draw` over the exact reals: no panic, well-formed result, `(w + 0.5) as usize` exact, and the weight
      vector handed to `pflip` is `counts ++ [α]` with its exact total at every step (`crpDraw_weights`).
   4. EPPF: Σ over ALL set partitions of `n` items of `exp (Crp::ln_f)` = 1 for all `n ≥ 1`, `α > 0`
@@ -284,6 +285,7 @@ example : runLog ⟨[0, 1, 0], [2, 1]⟩ [.append 2, .remove 1, .append 7, .remo
 
 /-! ### 2. order of first appearance -/
 
+-- @site Partition::from_z
 /-- on a well-formed partition the number of labels of `z` is `k` -/
 theorem numBlocks_of_wf (p : P) (hp : WF p) : numBlocks p.z = p.k := by
   obtain ⟨_, h2, h3, h4⟩ := hp
@@ -326,12 +328,14 @@ theorem remove_canonical_counterexample :
 
 /-! ### 3. `Crp::draw` -/
 
+-- @site Crp::draw
 theorem crpInit_inv {α : Type} [RealLike α] (alpha : α) : CrpInv (crpInit alpha) := by
   refine ⟨rfl, ?_, rfl⟩
   intro i hi
   simp only [crpInit, List.length_cons, List.length_nil] at hi
   interval_cases i; simp [crpInit]
 
+-- @site Crp::draw
 theorem crpStep_inv {α : Type} [RealLike α] (alpha : α) (s s' : CrpSt α) (u : α) (hs : CrpInv s)
     (h : crpStep alpha s u = some s') : CrpInv s' ∧ s'.z.length = s.z.length + 1 := by
   obtain ⟨h1, h2, h3⟩ := hs
@@ -356,6 +360,7 @@ theorem crpStep_inv {α : Type} [RealLike α] (alpha : α) (s s' : CrpSt α) (u 
       have : zi + 1 ≤ s.k := by omega
       simp only [Nat.max_def]; split <;> omega
 
+-- @site Crp::draw
 theorem crpLoop_inv {α : Type} [RealLike α] (alpha : α) (us : List α) (s s' : CrpSt α) (hs : CrpInv s)
     (h : crpLoop alpha s us = some s') : CrpInv s' ∧ s'.z.length = s.z.length + us.length := by
   induction us generalizing s with
@@ -389,6 +394,7 @@ theorem crpDraw_canonical {α : Type} [RealLike α] (alpha : α) (n : Nat) (us :
       simp only [crpFinish, P.len, hlen, crpInit, List.length_take, List.length_cons, List.length_nil]
       simp only [Nat.max_def]; split <;> omega
 
+-- @site Crp::draw
 theorem crpInit_invR (alpha : R) : CrpInvR alpha (crpInit alpha) := by
   refine ⟨rfl, ?_, ?_, ?_, ?_⟩
   · intro j hj
@@ -399,6 +405,7 @@ theorem crpInit_invR (alpha : R) : CrpInvR alpha (crpInit alpha) := by
   · simp [crpInit]; norm_num
   · simp [crpInit]
 
+-- @site Crp::draw
 theorem crpStep_invR (alpha : R) (s s' : CrpSt R) (u : R) (hs : CrpInvR alpha s)
     (h : crpStep alpha s u = some s') : CrpInvR alpha s' := by
   obtain ⟨h1, h2, h3, h4, h5⟩ := hs
@@ -480,6 +487,7 @@ theorem crpStep_invR (alpha : R) (s s' : CrpSt R) (u : R) (hs : CrpInvR alpha s)
         · exact h5 i hi
         · omega
 
+-- @site Crp::draw
 theorem crpLoop_invR (alpha : R) (us : List R) (s s' : CrpSt R) (hs : CrpInvR alpha s)
     (h : crpLoop alpha s us = some s') : CrpInvR alpha s' := by
   induction us generalizing s with
@@ -491,6 +499,7 @@ theorem crpLoop_invR (alpha : R) (us : List R) (s s' : CrpSt R) (hs : CrpInvR al
     · rename_i s1 h1
       exact ih s1 (crpStep_invR alpha s s1 u hs h1) h
 
+-- @site Crp::draw
 /-- over the exact reals `pflip` cannot reach its `panic!` exit when `0 ≤ u < 1` and `α > 0` -/
 theorem crpStep_some (alpha : R) (s : CrpSt R) (u : R) (ha : 0 < alpha.val) (hu0 : 0 ≤ u.val)
     (hu1 : u.val < 1) (hs : CrpInvR alpha s) : ∃ s', crpStep alpha s u = some s' := by
@@ -509,6 +518,7 @@ theorem crpStep_some (alpha : R) (s : CrpSt R) (u : R) (ha : 0 < alpha.val) (hu0
   · exact ⟨_, rfl⟩
   · exact ⟨_, rfl⟩
 
+-- @site Crp::draw
 theorem crpLoop_some (alpha : R) (us : List R) (s : CrpSt R) (ha : 0 < alpha.val)
     (hu : ∀ u ∈ us, 0 ≤ u.val ∧ u.val < 1) (hs : CrpInvR alpha s) : ∃ s', crpLoop alpha s us = some s' := by
   induction us generalizing s with
@@ -518,6 +528,7 @@ theorem crpLoop_some (alpha : R) (us : List R) (s : CrpSt R) (ha : 0 < alpha.val
     simp only [crpLoop, h1]
     exact ih s1 (fun v hv => hu v (List.mem_cons_of_mem _ hv)) (crpStep_invR alpha s s1 u hs h1)
 
+-- @site Partition::from_z
 /-- a restricted-growth string with its vector of label counts is a well-formed partition -/
 theorem wf_of_canonical (z counts : List Nat) (hc : Canonical z) (hl : counts.length = numBlocks z)
     (hcnt : ∀ j, j < numBlocks z → counts.getD j 0 = z.count j) : WF ⟨z, counts⟩ := by
@@ -586,12 +597,67 @@ theorem crpDraw_wf (alpha : R) (n : Nat) (us : List R) (ha : 0 < alpha.val) (hn 
   · have := hl hlen
     simp only [Nat.max_def] at this; split at this <;> omega
 
+-- @site Partition::remove
+/-- removing the LAST item (what a sweep that re-seats the newest item does) keeps the order of first appearance -/
+theorem remove_last_canonical (p q : P) (hp : WF p) (hc : Canonical p.z) (hn : 0 < p.len)
+    (h : p.remove (p.len - 1) = .ok q) : Canonical q.z := by
+  obtain ⟨pz, pc⟩ := p
+  simp only [P.len] at hn h
+  obtain ⟨z', x, rfl⟩ : ∃ z' x, pz = z' ++ [x] := by
+    have hne : pz ≠ [] := by intro e; simp [e] at hn
+    exact ⟨pz.dropLast, pz.getLast hne, (List.dropLast_append_getLast hne).symm⟩
+  obtain ⟨hc1, hx⟩ := (canonical_snoc z' x).mp hc
+  obtain ⟨_, h2, h3, h4⟩ := hp
+  have hlen : (z' ++ [x]).length - 1 = z'.length := by simp
+  have hget : (z' ++ [x]).getD z'.length 0 = x := by simp [List.getD_eq_getElem?_getD]
+  have herase : (z' ++ [x]).eraseIdx z'.length = z' := by
+    rw [List.eraseIdx_append_of_length_le (le_refl _)]; simp
+  have hxk : x < pc.length := h4 x (by simp)
+  rw [hlen] at h
+  unfold P.remove at h
+  simp only [hget, herase, List.length_append, List.length_singleton] at h
+  have h1 : ¬ (z'.length ≥ z'.length + 1) := by omega
+  have h1' : ¬ (x ≥ pc.length) := by omega
+  simp only [h1, h1', if_false] at h
+  split at h
+  · rename_i hone
+    have hone : pc.getD x 0 = 1 := by simpa using hone
+    injection h with h
+    subst h
+    have hcx : (z' ++ [x]).count x = 1 := by rw [← h2 x hxk]; exact hone
+    have hnot : x ∉ z' := by
+      rw [List.count_append, List.count_singleton_self] at hcx
+      exact List.count_eq_zero.mp (by omega)
+    have hxe : x = numBlocks z' := by
+      apply le_antisymm hx
+      by_contra hlt
+      exact hnot (canonical_labels_present z' hc1 x (by omega))
+    have hid : z'.map (shift x) = z' := by
+      conv_rhs => rw [← List.map_id z']
+      apply List.map_congr_left
+      intro y hy
+      have := (foldl_nb z' 0).2.1 y hy
+      have hy' : y < x := by rw [hxe]; simp only [numBlocks]; omega
+      simp only [shift, id]
+      split <;> omega
+    simp only [hid]
+    exact hc1
+  · split at h
+    · cases h
+    · injection h with h
+      subst h
+      exact hc1
+
+example : P.remove ⟨[0, 1, 0, 2], [2, 1, 1]⟩ 3 = .ok ⟨[0, 1, 0], [2, 1]⟩ := rfl
+
 /-! ### 4. the EPPF sums to one over all set partitions; block-size dependence -/
 
+-- @site Partition::append
 theorem append_eq_seat (p : P) (j : Nat) (hj : j ≤ p.k) : p.append j = .ok (seat p j) := by
   unfold P.append seat
   simp only [gt_iff_lt, Nat.not_lt.mpr hj, if_false]
 
+-- @site Partition::append
 theorem children_gW (a : ℝ) (p : P) (hp : WF p) :
     ((children p).map (fun q => gW a q.counts)).sum = gW a p.counts * ((p.counts.sum : ℝ) + a) := by
   obtain ⟨_, h2, h3, h4⟩ := hp
@@ -617,6 +683,7 @@ theorem children_gW (a : ℝ) (p : P) (hp : WF p) :
   rw [hA, hB, List.sum_map_mul_left, sum_set_prod _ hc]
   simp only [gW]; ring
 
+-- @site Partition::from_z
 theorem counts_eq_of_wf (p : P) (hp : WF p) : p.counts = (List.range p.k).map (fun j => p.z.count j) := by
   obtain ⟨_, h2, h3, h4⟩ := hp
   apply List.ext_getElem
@@ -632,6 +699,7 @@ theorem wf_sum_counts (p : P) (hp : WF p) : p.counts.sum = p.len := by
   rw [counts_eq_of_wf p hp]
   exact sum_count_range p.z p.k hp.2.2.2
 
+-- @site Partition::from_z
 /-- a well-formed partition is determined by its assignment vector -/
 theorem wf_ext (p q : P) (hp : WF p) (hq : WF q) (hz : p.z = q.z) : p = q := by
   have hk : p.k = q.k := by rw [← numBlocks_of_wf p hp, ← numBlocks_of_wf q hq, hz]
@@ -645,16 +713,20 @@ theorem wf_ext (p q : P) (hp : WF p) (hq : WF q) (hz : p.z = q.z) : p = q := by
   rw [← h2] at h1
   rw [h1]
 
+-- @site Partition::append
 theorem seat_wf (p : P) (j : Nat) (hp : WF p) (hj : j ≤ p.k) : WF (seat p j) :=
   append_wf p _ j hp (append_eq_seat p j hj)
 
+-- @site Partition::append
 theorem seat_canonical (p : P) (j : Nat) (hp : WF p) (hc : Canonical p.z) (hj : j ≤ p.k) :
     Canonical (seat p j).z :=
   append_canonical p _ j hp hc (append_eq_seat p j hj)
 
+-- @site Partition::from_z
 theorem wf_new : WF P.new := by
   refine ⟨rfl, ?_, ?_, ?_⟩ <;> simp [P.new, P.k]
 
+-- @site Partition::append
 theorem mem_allParts (n : Nat) (p : P) (h : p ∈ allParts n) : WF p ∧ Canonical p.z ∧ p.len = n := by
   induction n generalizing p with
   | zero =>
@@ -669,6 +741,7 @@ theorem mem_allParts (n : Nat) (p : P) (h : p ∈ allParts n) : WF p ∧ Canonic
     simp only [seat, P.len, List.length_append, List.length_singleton] at h3 ⊢
     omega
 
+-- @site Partition::append
 /-- completeness: EVERY well-formed partition of `n` items whose labels are in order of first appearance is
     enumerated -/
 theorem allParts_complete (n : Nat) (p : P) (hp : WF p) (hc : Canonical p.z) (hl : p.len = n) :
@@ -695,6 +768,7 @@ theorem allParts_complete (n : Nat) (p : P) (hp : WF p) (hc : Canonical p.z) (hl
     refine ⟨q, hqm, x, by omega, ?_⟩
     exact wf_ext _ _ (seat_wf q x hq (by omega)) hp rfl
 
+-- @site Partition::append
 theorem children_nodup (p : P) : (children p).Nodup := by
   unfold children
   apply List.Nodup.map_on
@@ -703,6 +777,7 @@ theorem children_nodup (p : P) : (children p).Nodup := by
     simpa [seat] using this
   · exact List.nodup_range
 
+-- @site Partition::append
 /-- no partition is enumerated twice -/
 theorem allParts_nodup (n : Nat) : (allParts n).Nodup := by
   induction n with
@@ -728,6 +803,7 @@ theorem allParts_nodup (n : Nat) : (allParts n).Nodup := by
 
 example : (allParts 4).length = 15 := by decide
 
+-- @site Partition::append
 /-- total unnormalised mass of the partitions of `[n]` is the rising factorial `α (α+1) … (α+n−1)`, here
     in the form `· Γ(α) / Γ(α+n) = 1` -/
 theorem sum_gW (a : ℝ) (ha : 0 < a) (n : Nat) :
@@ -811,6 +887,7 @@ theorem Crp_ln_f_perm (d : Gen.Crp R) (x y : Gen.Partition R) (hperm : x.counts.
     R.add_val, R.sub_val, R.mul_val, R.ln_val, R.lgamma_val, R.ofNatR_val]
   rw [h1, h1, (hperm.map _).sum_eq, hperm.length_eq, hlen]
 
+-- @site Crp.ln_f_Partition
 theorem Crp_ln_f_blocksizes (d : Gen.Crp R) (p q : P) (hp : WF p) (hq : WF q)
     (hperm : p.counts.Perm q.counts) :
     (Gen.Crp.ln_f_Partition d (toGen p)).val = (Gen.Crp.ln_f_Partition d (toGen q)).val := by
@@ -954,3 +1031,4 @@ end C19
 #print axioms C19.new_eq_gen
 #print axioms C19.weights_sum_one
 #print axioms C19.remove_relabel
+#print axioms C19.remove_last_canonical
